@@ -515,7 +515,7 @@ def run(rep):
         "random schedules are unbounded in preemptions",
         "TLC 1.8 and CPython 3.12 sys.monitoring are trusted"]
     bound = 2 if quick else 3
-    budget = 2500 if quick else 12000        # DFS schedules per configuration
+    budget = 2500 if quick else 5000         # DFS schedules per configuration
     cfgs = configurations(quick, rep.seed)
     recs = []
     trunc = 0
@@ -570,7 +570,7 @@ def run(rep):
         for ci, (c, root) in enumerate(zip(cfgs, roots)):
             recs.extend(root["runs"])
             tasks += _dfs_jobs(ci, c, root["children"], bound, budget, False)
-        nrand = 40 if quick else 1500
+        nrand = 40 if quick else 600
         rtasks = [(ci, c, rep.seed * 100003 + ci, nrand, False) for ci, c in enumerate(cfgs)]
         for out in pool.imap_unordered(_dfs_task, tasks):
             recs.extend(out["runs"])
@@ -589,11 +589,11 @@ def run(rep):
             dtasks = []
             for (ci, c), root in zip(dcfgs, droots):
                 recs.extend(root["runs"])
-                dtasks += _dfs_jobs(ci, c, root["children"], 2, 6000, True)
+                dtasks += _dfs_jobs(ci, c, root["children"], 2, 2000, True)
             for out in pool.imap_unordered(_dfs_task, dtasks):
                 recs.extend(out["runs"])
                 trunc += out["truncated"]
-            for out in pool.imap_unordered(_random_task, [(ci, c, rep.seed * 7 + ci, 400, True) for ci, c in dcfgs]):
+            for out in pool.imap_unordered(_random_task, [(ci, c, rep.seed * 7 + ci, 150, True) for ci, c in dcfgs]):
                 recs.extend(out["runs"])
     if "error" in s1:
         raise s1["error"]
